@@ -29,7 +29,8 @@ META = {
         "Not decided: identity of lots/aliquots under every configuration."
         ' Also: Tract.parse feeds TractParser the un-preprocessed text (re-parse with clean_qq off is not contaminated), clean_qq lock-down, chain family inclusion.'
         " Round 7: the match the engine reports stops in front of '.', ';', ','; every spelling the direction / quarter sub-patterns accept is accepted by the look-ahead as the start of the next aliquot."
-        " Round 8: scoped inline flags are modelled; the look-ahead is checked in both cases; the base scrubbers stop in front of '.', ';', ',' for every spelling alike."),
+        " Round 8: scoped inline flags are modelled; the look-ahead is checked in both cases; the base scrubbers stop in front of '.', ';', ',' for every spelling alike."
+        ' Round 9: scrub_aliquots returns only after half_plus_q and the intervener remover ran.'),
     'families': ['RX-LANG', 'TBL', 'FIXPOINT', 'ORDER', 'STRIPSET'],
 }
 
